@@ -214,7 +214,8 @@ def isSymm {n} (R : AMat Int n) : Bool :=
   (List.finRange n).all fun i => (List.finRange n).all fun j => R.get i j == R.get j i
 
 def listToPerm (n : Nat) (p : List Nat) : Option (Fin n → Fin n) :=
-  if h : p.length = n ∧ p.all (· < n) then
+  if !(p.all (· < n)) then none else
+  if h : p.length = n ∧ p.Nodup then
     some fun i => ⟨(p[i.val]'(by omega)) % n, Nat.mod_lt _ (by have := i.isLt; omega)⟩
   else none
 
